@@ -38,7 +38,7 @@ def run(tier: str) -> int:
                                         bound=2, per_level=(1, 20, 10, 3), nrandom=4, procs=8)
     else:
         total, distinct = ec.conc_check(ck, scs, tier, "TimerSchedTrace", ec.TS_TRACE_CONSTS, ec.TS_INVS, "timer-conc",
-                                        bound=3, per_level=(1, 300, 300, 200, 60), nrandom=150, procs=8)
+                                        bound=3, per_level=(1, 100, 100, 50, 20), nrandom=40, procs=8)
     if ck.extra.get("timer-conc_starts", 0) == 0:
         raise tlc.TLCFailure("vacuous: no action started in any execution")
     res, consts = design.result()
